@@ -196,6 +196,13 @@ def _run_property(prop, tier, replay=None):
                 shards = st.shards_thorough if tier == "thorough" else 1
                 results = []
                 if replay:
+                    # a replay file written by a check names its stream: the other streams have another input format
+                    try:
+                        rstream = json.load(open(replay)).get("stream")
+                    except (OSError, ValueError, AttributeError):
+                        rstream = None
+                    if rstream and rstream != st.name and any(x.name == rstream for x in prop.streams):
+                        continue
                     results.append(run_stream(prop, st, tier, seed, wd, replay=replay, tag="replay"))
                 else:
                     # committed corpus first
